@@ -97,6 +97,22 @@ def late_reply(r, i):
   return spec
 
 
+def queued_expiry(r, i):
+  """A mux request expires while queued behind a slow write; later calls must not receive its (late) answer."""
+  sd = r.choice([4, 6, 9])
+  spec = {'stack': 'mux', 'tie': r.choice(['fifo', 'lifo']), 'timeout': 64, 'seed': r.randrange(1 << 30), 'resolution': 1,
+          'endpoints': [{'port': 9001, 'default': {'act': 'reply', 'delay': r.choice([3, 6])},
+                         'plan': {'c1': {'act': 'reply', 'delay': 0}, 'c2': {'act': 'reply', 'delay': r.choice([4, 8])}},
+                         'reach': [], 'send_delay': sd}],
+          'faults': [], 'horizon': 260,
+          'events': [{'at': 0, 'op': 'call', 'id': 'c0'},
+                     {'at': 0, 'op': 'call', 'id': 'c1', 'timeout': r.choice([1, 2, sd - 1])},
+                     {'at': r.choice([sd + 1, 2 * sd + 1, 3 * sd]), 'op': 'call', 'id': 'c2'},
+                     {'at': 3 * sd + 2, 'op': 'call', 'id': 'c3'},
+                     {'at': 60, 'op': 'call', 'id': 'c4'}]}
+  return spec
+
+
 def gen_cases(tier, seed):
   from harness import scengen
   n = 360 if tier == 'quick' else 6000
@@ -106,6 +122,9 @@ def gen_cases(tier, seed):
     if i % 3 == 0:
       spec = late_reply(r, i // 3)
       kind = spec['stack'] + '/late-reply'
+    elif i % 12 == 2:
+      spec = queued_expiry(r, i)
+      kind = 'mux/queued-expiry'
     elif i % 12 == 1:
       # adversarial mux peer: answers twice / also on unused tags, several calls in flight (monitor only)
       spec = scengen.gen(r, stack='mux', profile='mixed', idx=i)
